@@ -155,6 +155,8 @@ structure EP where
   srcEnded : Bool := false      -- the source has yielded `None` or an error
   retryq : List Nat := []       -- rejected open requests whose futures have not run again yet
   doneq : List (Nat × Nat) := [] -- answered open requests (req, obj) whose futures have not run yet
+  sinkRoom : Option Nat := none -- how many more messages the transport's sink accepts (`none` = any number)
+  draining : Option ExitRes := none  -- winding down after a drop, parked in the drain loop
   muxAlive : Bool := true       -- the `Multiplexor` handle exists
   dead : Bool := false          -- the task has finished
 deriving Repr
@@ -298,7 +300,9 @@ def processFrame (e : EP) (f : Frame) (ignoreBind : Bool) : EP × List Ev × Opt
       if e.outClosed then (e, [], some .closedErr)
       else
         let e := e.enqFrame (.acknowledge fid e.opts.rwnd)
-        if !e.muxAlive then (e, [], some .sendStream)
+        if !e.muxAlive then
+          -- nobody can accept any more: the stream is dropped (its handle notifies the task)
+          ({ (e.modObj i (fun o => { o with rxOpen := false })) with droppedq := e.droppedq ++ [fid] }, [], none)
         else (offerAccept e i, [], none)
   | .acknowledge fid n =>
     match lookup e.flows fid with
@@ -313,7 +317,10 @@ def processFrame (e : EP) (f : Frame) (ignoreBind : Bool) : EP × List Ev × Opt
         -- the oneshot is answered; the requesting future picks the stream up when it runs next
         -- (`runDone`, in the order the futures were spawned)
         ({ e with doneq := e.doneq ++ [(req, i)], opens := e.opens.filter (·.req ≠ req) }, [], none)
-      | none => (e, [], some .sendStream)
+      | none =>
+        -- the requester gave up: the stream is dropped at once (its handle notifies the task, which
+        -- closes the flow again and resets it at the peer)
+        ({ (e.modObj i (fun o => { o with rxOpen := false })) with droppedq := e.droppedq ++ [fid] }, [], none)
     | some (.bindRequested _) => (e.enqFrame (.reset fid), [], none)
     | none => (e.enqFrame (.reset fid), [], none)
   | .finish fid =>
@@ -347,7 +354,7 @@ def processFrame (e : EP) (f : Frame) (ignoreBind : Bool) : EP × List Ev × Opt
     else if !e.muxAlive then (e, [], none)                                   -- send fails: warning only
     else (offerBind e { fid := fid, bt := bt, host := host, port := port }, [], none)
   | .datagram fid port host d =>
-    if !e.muxAlive then (e, [], some .closedErr)
+    if !e.muxAlive then (e, [], none)          -- receiver gone: the datagram is dropped
     else if e.dgramq.length < e.opts.dgramCap then
       ({ e with dgramq := e.dgramq ++ [{ fid := fid, host := host, port := port, data := d }] }, [], none)
     else (e, [], none)
@@ -402,25 +409,49 @@ def disallowAll (e : EP) : List (Nat × Slot) → EP
   | (_, .established i) :: rest => disallowAll (e.modObj i Obj.disallowWrite) rest
   | _ :: rest => disallowAll e rest
 
+/-- Steps (1), (3), (5) of the wind-down: `disallow_write` everywhere, the outbound queue is closed
+    (what it held is handed to the sink before, if draining — see `windDown`), a parked hand-over
+    is abandoned. -/
+def windDownPrep (e : EP) : EP :=
+  { disallowAll e e.flows with outClosed := true, outq := [], park := none }
+
+/-- The send path hands queued messages to the sink, in order, as long as the sink accepts them. -/
+def sendSome (e : EP) : EP × List Ev :=
+  match e.sinkRoom with
+  | none => ({ e with outq := [] }, e.outq.map .wire)
+  | some n => ({ e with outq := e.outq.drop n, sinkRoom := some (n - min n e.outq.length) }, (e.outq.take n).map .wire)
+
+/-- Steps (1) and (3) of the wind-down after a drop: the queue keeps what is to be drained. -/
+def dropPrep (e : EP) : EP :=
+  { disallowAll e e.flows with outClosed := true, park := none }
+
+/-- Steps (6)–(8) of the wind-down, after `flushed` went out and the sink was closed. After an error
+    (`res ≠ ok`) or when the source has ended the peer is not waited for; otherwise the task keeps
+    reading until the peer ends the connection (the close handshake; see `settleLoop`). -/
+def windDownTail (e1 : EP) (flushed : List Ev) (srcEnded : Bool) (res : ExitRes) : EP × List Ev :=
+  -- (6) what the source still has
+  let r := windDownInbox e1 e1.inbox
+  let e2 : EP := { r.1 with inbox := [] }
+  -- `srcEnded`: the source yields nothing more (`poll_next` is `None` at once)
+  if r.2.2 || srcEnded || res != .ok then
+    ((windDownFinish e2 res).1, flushed ++ [.wireClose] ++ r.2.1 ++ (windDownFinish e2 res).2)
+  else
+    ({ e2 with closing := some res }, flushed ++ [.wireClose] ++ r.2.1)
+
 /-- Wind-down (task.rs `wind_down`). `drain` = the Multiplexor was dropped (queued messages are
     still sent). After an error (`res ≠ ok`) the peer is not waited for: what the source has
     already delivered is processed and the task finishes. Otherwise the task keeps reading until the
     peer ends the connection (the close handshake); see `settleLoop` for that phase. -/
 def windDown (e : EP) (drain : Bool) (res : ExitRes) : EP × List Ev :=
-  let srcEnded := e.srcEnded   -- the source yields nothing more (`poll_next` is `None` at once)
-  -- (1) no more writes on any established flow (task.rs:301-305)
-  let e := disallowAll e e.flows
-  -- (3) close the outbound queue, (4) drain it if asked, (5) close the sink
-  let flushed : List Ev := if drain then e.outq.map .wire else []
-  let e := { e with outClosed := true, outq := [], park := none }
-  -- (6) what the source still has / will deliver
-  let (e, evs6, ended) := windDownInbox e e.inbox
-  let e := { e with inbox := [] }
-  if ended || srcEnded || res != .ok then
-    let (e, evs) := windDownFinish e res
-    (e, flushed ++ [.wireClose] ++ evs6 ++ evs)
+  if drain then
+    -- (1), (3); then (4): the messages still queued are sent, as far as the sink accepts them
+    let r := sendSome (dropPrep e)
+    if r.1.outq.isEmpty then windDownTail r.1 r.2 e.srcEnded res
+    else
+      -- the drain loop is parked at `poll_ready` until the sink accepts again
+      ({ r.1 with draining := some res }, r.2)
   else
-    ({ e with closing := some res }, flushed ++ [.wireClose] ++ evs6)
+    windDownTail (windDownPrep e) [] e.srcEnded res
 
 /-! ### The task's run to quiescence after a stimulus -/
 
@@ -429,7 +460,12 @@ def unpark (e : EP) : EP :=
   match e.park with
   | none => e
   | some (.accept i) =>
-    if e.acceptq.length < e.opts.acceptCap then { e with acceptq := e.acceptq ++ [i], park := none } else e
+    if !e.muxAlive then
+      -- the receiver is gone: the hand-over fails and the stream is dropped (its handle notifies the task)
+      match e.objs[i]? with
+      | some o => { (e.modObj i (fun o => { o with rxOpen := false })) with park := none, droppedq := e.droppedq ++ [o.fid] }
+      | none => { e with park := none }
+    else if e.acceptq.length < e.opts.acceptCap then { e with acceptq := e.acceptq ++ [i], park := none } else e
   | some (.bind b) =>
     if !e.muxAlive then
       -- the receiver is gone: the send fails, the `BindRequest` is dropped and rejects itself
@@ -438,17 +474,21 @@ def unpark (e : EP) : EP :=
 
 /-- Receive loop, then notification loop, then send loop (`select_biased`, task.rs:139-156), until
     nothing is left to do. `fuel` bounds the recursion; every iteration consumes an inbox item or a
-    notification, so `inbox.length + droppedq.length + 1` always suffices. -/
+    notification, and an inbox item adds at most one notification, so
+    `2 * inbox.length + droppedq.length + 1` always suffices. -/
 def settleLoop : Nat → EP → List Ev → EP × List Ev
   | 0, e, acc => (e, acc)
   | fuel + 1, e, acc =>
     if e.dead then (e, acc) else
-    if (match e.park with | some (.accept _) => !e.muxAlive | _ => false) then
-      -- parked on the accept queue and the Multiplexor is dropped: the hand-over fails, the receive
-      -- loop ends with `SendStreamToClient` (it is polled before the notification loop)
-      let (e, evs) := windDown { e with park := none } false .sendStream
-      (e, acc ++ evs)
+    if let some res := e.draining then
+      -- the drain loop of the wind-down continues once the sink accepts messages again
+      let r := sendSome e
+      if r.1.outq.isEmpty then
+        let t := windDownTail { r.1 with draining := none } r.2 e.srcEnded res
+        (t.1, acc ++ t.2)
+      else (r.1, acc ++ r.2)
     else
+
     if let some res := e.closing then
       -- close handshake: keep reading until the source ends
       let (e', evs, ended) := windDownInbox e e.inbox
@@ -513,14 +553,21 @@ def runDone (e : EP) : List (Nat × Nat) → EP × List Ev
 /-- After any stimulus: run the task to quiescence and hand the outbound queue to the sink; then the
     open futures that were rejected run again, and the task sends what they queued. -/
 def settle (e : EP) : EP × List Ev :=
-  let (e, evs) := settleLoop (e.inbox.length + e.droppedq.length + 2) e []
-  let wires1 := if e.dead then [] else e.outq.map Ev.wire
-  let e := if e.dead then e else { e with outq := [] }
+  -- fuel: every inbox item is consumed once and can add at most one notification
+  let (e, evs) := settleLoop (2 * e.inbox.length + e.droppedq.length + 2) e []
+  -- the send loop hands the queue to the sink, unless the sink is not ready (or the task is
+  -- gone / parked in the wind-down)
+  let hold := e.dead || e.draining.isSome
+  let s1 := if hold then (e, []) else sendSome e
+  let wires1 := s1.2
+  let e := s1.1
   let (e, evs0) := runDone { e with doneq := [] } (e.doneq.foldr insertDone [])
   let (e, evs2) := runRetries { e with retryq := [] } (sortNat e.retryq)
   let evs2 := evs0 ++ evs2
-  let wires2 := if e.dead then [] else e.outq.map Ev.wire
-  let e := if e.dead then e else { e with outq := [] }
+  let hold2 := e.dead || e.draining.isSome
+  let s2 := if hold2 then (e, []) else sendSome e
+  let wires2 := s2.2
+  let e := s2.1
   (e, evs ++ wires1 ++ evs2 ++ wires2)
 
 /-! ### Application calls -/
@@ -679,6 +726,8 @@ inductive Op where
   | bindDrop (k : Nat)
   | dropMux
   | deliver (w : WsIn)                      -- the transport hands one item to the task
+  | sinkRoom (n : Option Nat)               -- the transport's sink accepts `n` more messages (`none`: any number)
+  | cancelOpen (req : Nat)                  -- the application drops a pending `new_stream_channel` future
 deriving Repr
 
 /-- The application call (or delivery) itself, before the task runs. -/
@@ -698,6 +747,10 @@ def opStep (e : EP) : Op → EP × Res × List Ev
   | .bindReply k a => let (e, r) := appBindReply e k a; (e, r, [])
   | .bindDrop k => let (e, r) := appBindDrop e k; (e, r, [])
   | .dropMux => let (e, r) := appDropMux e; (e, r, [])
+  | .sinkRoom n => ({ e with sinkRoom := n }, .unit, [])
+  | .cancelOpen req =>
+    -- the future (and its oneshot receiver) is gone; the `Requested` slot stays in the flow table
+    ({ e with opens := e.opens.filter (·.req ≠ req) }, .unit, [])
   | .deliver w =>
     -- nothing arrives any more once the source has ended or failed
     if e.srcEnded || e.inbox.any (fun x => x == .eof || x == .err) then (e, .unit, [])
